@@ -11,6 +11,8 @@ void __VERIFIER_freeze(const void *);
 // A precondition of a standard-library facility: violated => undefined behaviour in the real library.
 // Reported as "UB: ..." and the path is cut (after UB nothing further is meaningful).
 #define VERIF_PRE(c, m) do { bool verif_c_ = (c); __VERIFIER_assert(verif_c_, "UB: " m); __VERIFIER_assume(verif_c_); } while (0)
+// Capacity of a work list (queue, stack, heap) exceeded: reported like a loop bound that is too small (check undecided), never silently cut.
+#define VERIF_WORK_CAP(c, m) do { bool verif_c_ = (c); __VERIFIER_assert(verif_c_, "unwinding bound: capacity of " m " exceeded"); __VERIFIER_assume(verif_c_); } while (0)
 #ifndef VERIF_LIST_CAP
 #define VERIF_LIST_CAP 4
 #endif
